@@ -33,7 +33,7 @@ vlib.standard_check({
     "harness": "c03",
     # harness args after the seed: <ncases> <mode> [stimuli per case]
     "streams": {
-        "quick": [[2500, "op", 6], [700, "dag", 6], [700, "dags", 6], [500, "const", 1], [2000, "lit"]],
+        "quick": [[8000, "op", 6], [2000, "dag", 6], [2500, "dags", 6], [1500, "const", 1], [5000, "lit"]],
         "thorough": [[120000, "op", 8], [30000, "dag", 8], [40000, "dags", 8], [20000, "const", 1], [100000, "lit"]],
     },
     "search": [[20000, "op", 8], [5000, "dag", 8], [5000, "const", 1]],
